@@ -150,10 +150,13 @@ def run(ctx):
                      note='the answer depends on what was asked before in the same process',
                      replay_py='first = athlib.get_implement_weight(%r, %r, %r)\nfor g in ("M", "F"):\n    for ag in %r:\n        athlib.get_implement_weight(%r, g, ag)\nresult = (first, athlib.get_implement_weight(%r, %r, %r))' % (ev, g, ag, LIB_LABELS, ev, ev, g, ag))
     ctx.count(nh, 'history_independence_answers')
-    for ev in ['LJ', '100', 'HJ', '4x100', 'DEC', '60H', 'MAR', 'SP7.26K', 'JT800', 'BT1K', 'OT150']:
+    # non-throw codes, weight-specific codes, and the generic throws without an implement table (spec-side list): unchanged
+    for ev in ['LJ', '100', 'HJ', '4x100', 'DEC', '60H', 'MAR', 'SP7.26K', 'JT800', 'BT1K', 'OT150',
+               'BT', 'OT', 'ST', 'SWT', 'GDT', 'CT', 'SSP', 'SDT', 'SJT', 'SBT', 'TART', 'OHT', 'CHT', 'H1', 'L9', 'BAL', 'XC', '5K', '24HR']:
         for g in ('M', 'F'):
             for ag in ('U13', 'SEN', 'V50'):
-                c = athlib.get_specific_event_code(ev, g, ag)
+                try: c = athlib.get_specific_event_code(ev, g, ag)
+                except Exception as e: c = 'raises ' + type(e).__name__
                 ctx.count(1, 'passthrough')
                 if c != ev: fail('athlib.get_specific_event_code', [ev, g, ag], ev, c, 'non-throw code not passed through')
     if keys is not None:
